@@ -6809,6 +6809,14 @@ int64_t ExpressionEvaluator::evaluate_function_call_impl(const ASTNode *node) {
                 }
                 return_value = 0;
             }
+            // 宣言された戻り値型に対する型範囲チェック
+            // （変数代入と同じ規則。ポインタ戻り値はスキップ）
+            if (func && !func->return_types.empty() &&
+                ret.type != TYPE_POINTER) {
+                interpreter_.get_type_manager()->check_type_range(
+                    func->return_types[0], return_value, func->name,
+                    func->is_unsigned);
+            }
             TypedValue typed_return = make_typed_from_return(return_value);
             capture_numeric_return(typed_return);
 
